@@ -215,6 +215,10 @@ def run(ck):
                         "by more than half of the shorter one, so the single pairwise pass sees every overlap (as C14.2)")
     from . import c14 as _c14
     _c14.join_score(_RV(ck, {"C14.2": "C15.12"}))
+    ck.clause("C15.14", "the chainer asks the join score of every predecessor it considers (as C14.4 :candidate / :init): a candidate built "
+                        "without the call (a short cut for a zero multiplier) also skips the -inf that keeps overlapping segments apart")
+    if ck.wants("C15.14"):
+        _c14.dp(_RV(ck, {"C14.4": "C15.14"}, only_constructs=(":candidate", ":init")))
     ck.clause("C15.11", "the type tests that pick a segment's reference / query labels can succeed: the elements of a segment are "
                         "Scored* wrappers, a test against a class no element can be an instance of silently stops counting unpaired labels")
     from ..rules.narrow import findings as _narrow
